@@ -15,6 +15,9 @@ Proof. vm_compute. reflexivity. Qed.
 Lemma env_reads_closed : closed scanned_env_reads known_env_reads = true.
 Proof. vm_compute. reflexivity. Qed.
 
+Lemma process_state_closed : closed scanned_process_state known_process_state = true.
+Proof. vm_compute. reflexivity. Qed.
+
 (* every scanned item really is one of the known ones (the reading of [closed]) *)
 Lemma closed_spec scanned known : closed scanned known = true ->
   forall x, In x scanned -> exists y, In y known /\ triple_eqb x y = true.
